@@ -12,7 +12,7 @@ DEFINITE = (
     'assertion failed', 'possible arithmetic underflow/overflow', 'possible division by zero',
     'loop invariant not', 'decreases not satisfied', 'index out of bounds',
     'possible bit shift underflow/overflow', 'unable to prove', 'assertion not satisfied',
-    'cannot show this call will not unwind', 'might unwind',
+    'cannot show this call will not unwind', 'might unwind', 'precondition not met',
     'recommendation not met',  # only when reported as error
 )
 RESOURCE = ('rlimit', 'resource limit', 'timed out', 'Resource limit')
